@@ -202,16 +202,30 @@ Proof.
   - rewrite IH. field. assumption.
 Qed.
 
+Lemma bgsub_px_nz m1 m2 s1 s2 : ~ s2 == 0 -> bgsub_px m1 m2 s1 s2 = m1 - m2 * s1 / s2.
+Proof.
+  intros H. unfold bgsub_px. destruct (Qeq_bool s2 0) eqn:E; [|reflexivity]. apply Qeq_bool_iff in E. contradiction.
+Qed.
+
 Theorem bgsub_balanced (px : list (Q * Q)) :
   let s1 := sum2 fst px in let s2 := sum2 snd px in ~ s2 == 0 ->
   sum2 (fun p => bgsub_px (fst p) (snd p) s1 s2) px == 0.
 Proof.
-  cbv zeta. intros Hs2. unfold bgsub_px. rewrite sum2_bgsub by assumption. field. assumption.
+  cbv zeta. intros Hs2.
+  assert (E : forall l, sum2 (fun p => bgsub_px (fst p) (snd p) (sum2 fst px) (sum2 snd px)) l
+                        == sum2 (fun p => fst p - snd p * sum2 fst px / sum2 snd px) l).
+  { induction l as [|p t IH]; cbn [sum2]; [reflexivity|]. rewrite IH, (bgsub_px_nz _ _ _ _ Hs2). reflexivity. }
+  rewrite E, sum2_bgsub by assumption. field. assumption.
 Qed.
 
-Theorem bgsub_le_1 m1 m2 s1 s2 : m1 <= 1 -> 0 <= m2 -> 0 <= s1 -> 0 < s2 -> bgsub_px m1 m2 s1 s2 <= 1.
+(* the ring lies entirely outside the requested array: no NaN, the mask is the disk itself *)
+Theorem bgsub_empty_ring m1 m2 s1 s2 : s2 == 0 -> bgsub_px m1 m2 s1 s2 = m1.
+Proof. intros H. unfold bgsub_px. apply Qeq_bool_iff in H. rewrite H. reflexivity. Qed.
+
+Theorem bgsub_le_1 m1 m2 s1 s2 : m1 <= 1 -> 0 <= m2 -> 0 <= s1 -> 0 <= s2 -> bgsub_px m1 m2 s1 s2 <= 1.
 Proof.
-  intros H1 H2 H3 H4. unfold bgsub_px.
+  intros H1 H2 H3 H4. unfold bgsub_px. destruct (Qeq_bool s2 0) eqn:E; [exact H1|].
+  assert (Hs : 0 < s2). { assert (E' : ~ s2 == 0) by (intros C; apply Qeq_bool_iff in C; congruence). apply Qle_lt_or_eq in H4. destruct H4 as [L|L]; [exact L|]. exfalso. apply E'. symmetry. exact L. }
   assert (0 <= m2 * s1 / s2).
   { apply Qle_shift_div_l; [assumption|]. rewrite Qmult_0_l. apply Qmult_le_0_compat; assumption. }
   lra.
